@@ -40,7 +40,7 @@ Fixpoint unsealed_view (n : node) : node :=
   match n with
   | Leaf l => Leaf l
   | Node i k pa pt fl its =>
-      Node i k pa pt (mkFlags false (f_aw fl) (f_partial fl)) (map (fun kv => (fst kv, unsealed_view (snd kv))) its)
+      Node i k pa pt (mkFlags false (f_aw fl) (f_partial fl) (f_spec fl)) (map (fun kv => (fst kv, unsealed_view (snd kv))) its)
   end.
 Lemma seal_rec_only_flag : forall b n, unsealed_view (seal_rec b n) = unsealed_view n.
 Proof.
